@@ -117,6 +117,7 @@ def run(ctx, rep):
     rep.section(n3, ctx, rep)
     rep.section(n6, ctx, rep)
     rep.section(n7, ctx, rep)
+    rep.section(n8, ctx, rep)
     rep.section(n5, ctx, rep, T)
     rep.extra['evaluations'] = n_sites
 
@@ -508,6 +509,67 @@ def n7(ctx, rep):
     ok = bool(entries) and not wholesale
     w0 = wholesale[0] if wholesale else None
     rep.check(ok, 'N7', 'rename-table:accumulates-per-name', f'{len(entries)} entry() site(s), no wholesale construction of the outer map', ("collect_serde_renames builds the rename table with `" + (re.sub(r'\s+', '', w0[1]['snippet'])[:60] if w0 else '?') + "` — a map of maps made this way keeps ONE inner map per original name, so when two crates each rename a type with the same Rust identifier only one crate's rename survives: the other crate's references keep the original name while its definition is emitted under the serde name") if wholesale else 'collect_serde_renames never goes through the entry API of the rename table: entries of the same original name from different crates are not merged', {'file': w0[1]['file'], 'line': w0[1]['line']} if w0 else site)
+
+
+def n8(ctx, rep):
+    """N8 (the new name comes from the crate the reference names): the per-name rename table maps *crate* → serde name.  The
+    resolver may only address it by key, and only with a crate the reference can mean: the crate of an import of that type name
+    (`import.base_crate`) or the referencing crate itself.  Enumerating the inner map (`values()`, `iter()`, a `for` over it) picks
+    the rename of some other crate: a same-named, un-renamed local or third-crate type is then rewritten to a foreign serde name —
+    the definition keeps its name, the reference (and its missing import) does not."""
+    cands = [g for g in ctx.fns(file='reconcile.rs') if any(str(p_.get('ty') or '').replace(' ', '') in ('RenamedTypes', '&RenamedTypes') or 'HashMap<String,HashMap<' in str(p_.get('ty') or '').replace(' ', '') for p_ in g['params'])
+             and str(g.get('ret') or '').replace(' ', '') in ('Option<String>', 'Option<&String>', 'Option<&str>')]
+    if len(cands) != 1:
+        raise core.Incomplete(f"N8: the rename resolver (takes the rename table, returns Option<String>) expected once in reconcile.rs, found {[g['name'] for g in cands]}")
+    f = ctx.x(cands[0])
+    site = {'file': f['file'], 'line': f['line']}
+    tparam = next(p_['name'] for p_ in f['params'] if 'Renamed' in str(p_.get('ty') or '') or 'HashMap<String' in str(p_.get('ty') or '').replace(' ', ''))
+    cparam = next((p_['name'] for p_ in f['params'] if str(p_.get('ty') or '').replace('&', '').strip() == 'CrateName'), None)
+
+    def is_inner(v):
+        """the inner map: a value obtained from the table by key (`table.get(id)?`, `table[id]`, `if let Some(m) = table.get(id)`)"""
+        v = vt.unvar(v)
+        d = 0
+        while isinstance(v, dict) and d < 12:
+            d += 1
+            if v.get('k') in ('try', 'ref', 'deref', 'paren'):
+                v = vt.unvar(v.get('v'))
+            elif v.get('k') == 'payload':
+                v = vt.unvar(v.get('of'))
+            elif v.get('k') == 'call' and v.get('f') in ('unwrap', 'expect', 'unwrap_or_default', 'cloned', 'copied', 'as_ref') and v.get('recv') is not None:
+                v = vt.unvar(v['recv'])
+            else:
+                break
+        if isinstance(v, dict) and v.get('k') == 'call' and v.get('f') in ('get', 'get_mut') and v.get('recv') is not None:
+            r = vt.strip(v['recv'])
+            return isinstance(r, dict) and r.get('k') == 'atom' and r.get('root') == tparam and not r.get('path')
+        if isinstance(v, dict) and v.get('k') == 'index':
+            r = vt.strip(v.get('base'))
+            return isinstance(r, dict) and r.get('k') == 'atom' and r.get('root') == tparam
+        return False
+    ENUM = ('values', 'values_mut', 'iter', 'iter_mut', 'into_iter', 'into_values', 'keys', 'into_keys', 'drain')
+    n = 0
+    for c in f['calls']:
+        if c.get('recv') is None or not is_inner(c['recv']):
+            continue
+        n += 1
+        nm = c.get('f')
+        if nm in ENUM:
+            rep.fail('N8', f'resolver:{nm}-over-crates', f"{f['qual']} enumerates the per-name rename map (`{vt.show(c['recv'])[:40]}.{nm}()`): the serde name of whichever crate happens to rename a type of this name is used, although the reference names neither that crate nor imports from it — a same-named un-renamed type of the referencing (or a third) crate is rewritten to a foreign name", {'file': f['file'], 'line': c.get('line')})
+        elif nm in ('get', 'get_key_value', 'contains_key'):
+            key = c['args'][0] if c.get('args') else None
+            ks = [x for x in vt.walk(key)] if key is not None else []
+            ok = any(isinstance(x, dict) and x.get('k') == 'atom' and x.get('root') == cparam for x in ks) or any(isinstance(x, dict) and x.get('k') == 'field' and x.get('name') == 'base_crate' for x in ks) \
+                or any(isinstance(x, dict) and x.get('k') == 'atom' and (x.get('path') or [None])[-1] == 'base_crate' for x in ks)
+            rep.check(ok, 'N8', f"resolver:key:{vt.show(key)[-40:].replace(' ', '')}", 'addressed by the importing crate or the current crate', f"{f['qual']} looks the new name up under `{vt.show(key)[:60]}` — neither the crate of an import of this type name nor the referencing crate", {'file': f['file'], 'line': c.get('line')})
+    for lp in f.get('loops', []):
+        pass
+    for c in f['calls']:
+        for fr in c.get('guard', []):
+            if fr.get('k') == 'for' and fr.get('over') is not None and is_inner(fr['over']):
+                rep.fail('N8', 'resolver:for-over-crates', f"{f['qual']} loops over the per-name rename map: the rename of a crate the reference does not name can be chosen", {'file': f['file'], 'line': fr.get('line')})
+                break
+    rep.floor('N8', 'uses of the per-name rename map in the resolver', n, 2)
 
 
 def n3(ctx, rep):
